@@ -54,6 +54,8 @@ type edge struct {
 }
 
 type loopInfo struct {
+	preHeap   map[string]string   // heap key -> term before the loop (for the automatic loop frame)
+	frameRefs map[string][]string // heap key -> the only refs the loop writes
 	header  *ssa.BasicBlock
 	blocks  map[*ssa.BasicBlock]bool
 	ordinal int
@@ -80,6 +82,7 @@ type FnEnc struct {
 	rets   []retInfo
 	loops  map[*ssa.BasicBlock]*loopInfo
 	modsets map[string]map[string]bool // loop key (fn name + ordinal) -> modified keys; on top
+	modrefs map[string]map[string]map[string]bool // loop key -> heap key -> refs written ("*" = unknown)
 	modGrew bool
 	curLoops []*loopInfo // loops containing the current block (this function) + parent's
 	sitePrefix string
@@ -95,6 +98,9 @@ type FnEnc struct {
 	bindErrs []string
 	ctNoPanic int
 	dbg map[string][]*ssa.DebugRef
+	ifaceCalls []IfaceCall
+	cellInit0 map[string]string
+	staticContractCalls int
 }
 
 func (fe *FnEnc) fnName() string { return shortFn(fe.fn) }
@@ -267,10 +273,26 @@ func (fe *FnEnc) recordMod(keys []string) {
 				ms = map[string]bool{}
 				fe.top.modsets[lk] = ms
 			}
-			for _, k := range keys {
+			for _, kr := range keys {
+				k, ref := kr, "*"
+				if i := strings.Index(kr, "@"); i >= 0 {
+					k, ref = kr[:i], kr[i+1:]
+				}
 				if !ms[k] {
 					ms[k] = true
 					fe.top.modGrew = true
+				}
+				if strings.HasPrefix(k, "H_") {
+					if fe.top.modrefs[lk] == nil {
+						fe.top.modrefs[lk] = map[string]map[string]bool{}
+					}
+					if fe.top.modrefs[lk][k] == nil {
+						fe.top.modrefs[lk][k] = map[string]bool{}
+					}
+					if !fe.top.modrefs[lk][k][ref] {
+						fe.top.modrefs[lk][k][ref] = true
+						fe.top.modGrew = true
+					}
 				}
 			}
 		}
@@ -356,7 +378,7 @@ func (fe *FnEnc) run(args []Val) {
 				continue // unreachable
 			}
 			fe.guard = fe.s.name("g", "Bool", or(gs...))
-			fe.mem = fe.s.mergeMem(gs, ms)
+			fe.mem = fe.mergeMems(gs, ms)
 		}
 		// phis
 		var phis []*ssa.Phi
@@ -390,7 +412,7 @@ func (fe *FnEnc) run(args []Val) {
 			}
 			// havoc
 			lk := fe.loopKey(li)
-			fe.havocKeys(fe.top.modsets[lk])
+			fe.havocLoop(li, lk)
 			for _, p := range phis {
 				fe.vals[p] = fe.freshVal("lp_"+mangle(p.Comment), p.Type())
 			}
@@ -482,9 +504,69 @@ func (fe *FnEnc) run(args []Val) {
 				oldV := fe.evalAtLoopTerm(sc, *spec.Decreases, nil)
 				fe.check(fmt.Sprintf("loop%d.decreases", hli.ordinal), fe.siteLabel(""), "(and (<= 0 "+oldV+") (< "+newV+" "+oldV+"))", "decreases "+spec.Decreases.Src, sc.Instrs[0].Pos())
 			}
+			if fr := fe.loopFrameGoal(hli); fr != "" {
+				fe.check(fmt.Sprintf("loop%d.frame", hli.ordinal), fe.siteLabel(""), fr, "objects the loop does not write are unchanged", sc.Instrs[0].Pos())
+			}
 			fe.guard = saveG
 		}
 	}
+}
+
+// havocLoop havocs what the loop writes.  For heap fields written only through
+// stable references (parameters), the other objects are known to be untouched:
+// that automatic frame is assumed at the head and proved on every back edge.
+func (fe *FnEnc) havocLoop(li *loopInfo, lk string) {
+	keys := fe.top.modsets[lk]
+	li.preHeap = map[string]string{}
+	li.frameRefs = map[string][]string{}
+	for _, k := range sortedKeys(keys) {
+		if !strings.HasPrefix(k, "H_") {
+			continue
+		}
+		refs := fe.top.modrefs[lk][k]
+		if len(refs) == 0 || refs["*"] {
+			continue
+		}
+		stable := true
+		for r := range refs {
+			if !strings.HasPrefix(r, "p_") || !isAtom(r) {
+				stable = false
+			}
+		}
+		if !stable {
+			continue
+		}
+		if _, ok := fe.s.heapSort[k]; !ok {
+			if reg := fe.g.heapReg[k]; reg != nil {
+				reg(fe.s)
+			}
+		}
+		li.preHeap[k] = fe.s.heapGet(fe.mem, k)
+		li.frameRefs[k] = sortedKeys(refs)
+	}
+	fe.havocKeys(keys)
+	for _, k := range sortedKeys(li.preHeap) {
+		fe.s.assert(implies(fe.guard, frameFormula(fe.mem.heaps[k], li.preHeap[k], li.frameRefs[k])))
+	}
+}
+
+func frameFormula(cur, pre string, refs []string) string {
+	var conds []string
+	for _, r := range refs {
+		conds = append(conds, "(not (= fr "+r+"))")
+	}
+	return "(forall ((fr Int)) (! (=> " + and(conds...) + " (= (select " + cur + " fr) (select " + pre + " fr))) :pattern ((select " + cur + " fr))))"
+}
+
+func (fe *FnEnc) loopFrameGoal(li *loopInfo) string {
+	var gs []string
+	for _, k := range sortedKeys(li.preHeap) {
+		gs = append(gs, frameFormula(fe.s.heapGet(fe.mem, k), li.preHeap[k], li.frameRefs[k]))
+	}
+	if len(gs) == 0 {
+		return ""
+	}
+	return and(gs...)
 }
 
 func (fe *FnEnc) siteLabel(l string) string {
@@ -525,6 +607,11 @@ func (fe *FnEnc) havocKeys(keys map[string]bool) {
 			gk := strings.TrimPrefix(k, "ghost:")
 			fe.mem.ghost[gk] = fe.s.fresh("hg", fe.g.ghostSort(gk))
 		} else {
+			if _, ok := fe.s.heapSort[k]; !ok {
+				if reg := fe.g.heapReg[k]; reg != nil {
+					reg(fe.s)
+				}
+			}
 			h := fe.s.fresh("hh", fe.s.heapSort[k])
 			fe.mem.heaps[k] = h
 
@@ -587,6 +674,10 @@ func (fe *FnEnc) assumePtr(u *types.Pointer, term string) {
 func (fe *FnEnc) newCell(prefix string, t types.Type, init string) string {
 	fe.s.nfresh++
 	ck := fmt.Sprintf("%s%d", prefix, fe.s.nfresh)
+	if fe.top.cellInit0 == nil {
+		fe.top.cellInit0 = map[string]string{}
+	}
+	fe.top.cellInit0[ck] = init
 	fe.mem.cells[ck] = init
 	fe.mem.cellT[ck] = t
 	return ck
@@ -908,4 +999,29 @@ func (fe *FnEnc) constVal(c *ssa.Const) Val {
 		}
 	}
 	return Val{T: t, Term: fe.s.fresh("const", fe.s.sortOf(t))}
+}
+
+// mergeMems merges memories including generator-level pointer cells.
+func (fe *FnEnc) mergeMems(gs []string, ms []*Mem) *Mem {
+	out := fe.s.mergeMem(gs, ms)
+	keys := map[string]bool{}
+	for _, m := range ms {
+		for k := range m.ptrs {
+			keys[k] = true
+		}
+	}
+	for _, k := range sortedKeys(keys) {
+		var vs []Val
+		var g2 []string
+		for i, m := range ms {
+			if v, ok := m.ptrs[k]; ok {
+				vs = append(vs, v)
+				g2 = append(g2, gs[i])
+			}
+		}
+		if len(vs) > 0 {
+			out.ptrs[k] = fe.mergeVals(g2, vs, vs[0].T)
+		}
+	}
+	return out
 }
